@@ -101,6 +101,44 @@ def main() -> None:
         except Exception as e:  # noqa: BLE001
             rec["cache_error"] = f"{type(e).__name__}: {e}"
 
+    if args.get("trace_walk"):
+        # observation of the AST walk: one event per enter/leave callback, in order
+        try:
+            from safeds_stubgen.api_analyzer import _ast_walker as aw
+
+            rec["walk"] = []
+
+            def describe(node):
+                k = type(node).__name__
+                if k == "MypyFile":
+                    return "module", node.fullname
+                if k == "ClassDef":
+                    enum = any(getattr(b, "fullname", "") in ("enum.Enum", "enum.IntEnum") for b in node.base_type_exprs)
+                    return ("enum" if enum else "class"), node.name
+                if k == "FuncDef":
+                    return "func", node.name
+                if k == "AssignmentStmt":
+                    names = []
+                    for lv in node.lvalues:
+                        if hasattr(lv, "items"):
+                            names += [getattr(i, "name", "?") for i in lv.items]
+                        else:
+                            names.append(getattr(lv, "name", "?"))
+                    return "assign", ",".join(names)
+                return k, getattr(node, "name", "?")
+
+            for phase, attr in (("enter", "_ASTWalker__enter"), ("leave", "_ASTWalker__leave")):
+                orig = getattr(aw.ASTWalker, attr)
+
+                def wrapped(self, node, _orig=orig, _phase=phase):
+                    if len(rec["walk"]) < 400000:
+                        rec["walk"].append([_phase, *describe(node)])
+                    return _orig(self, node)
+
+                setattr(aw.ASTWalker, attr, wrapped)
+        except Exception as e:  # noqa: BLE001
+            rec["walk_error"] = f"{type(e).__name__}: {e}"
+
     sys.argv = ["safe-ds-stubgen", *args["argv"]]
     so = io.StringIO()
     old = sys.stdout
